@@ -1,7 +1,9 @@
 package main
 
 import (
+	"go/constant"
 	"go/token"
+	"go/types"
 	"sort"
 	"strings"
 
@@ -253,4 +255,158 @@ func (c *Ctx) requireContains(rule, key string, pos token.Pos, what string, got,
 			c.Bad(rule, key+" · "+w, pos, "required %s missing; found: %s", what, strings.Join(got, " ;; "))
 		}
 	}
+}
+
+// catValues flattens the buffer v into the operands appended to it, at value
+// level: append chains, empty bases (nil, make(T,0,…), x[:0]), a buffer
+// carried round a loop and cut back to a constant-length prefix.
+func catValues(v ssa.Value) []ssa.Value {
+	return catValuesD(v, map[ssa.Value]bool{}, 0)
+}
+
+func catValuesD(v ssa.Value, on map[ssa.Value]bool, d int) []ssa.Value {
+	if d > 20 {
+		return []ssa.Value{v}
+	}
+	switch x := v.(type) {
+	case *ssa.ChangeType:
+		return catValuesD(x.X, on, d+1)
+	case *ssa.Convert:
+		if _, ok := x.Type().Underlying().(*types.Slice); ok {
+			if _, ok := x.X.Type().Underlying().(*types.Slice); ok {
+				return catValuesD(x.X, on, d+1)
+			}
+		}
+	case *ssa.Const:
+		if x.Value == nil {
+			return nil
+		}
+	case *ssa.MakeSlice:
+		if k, ok := constInt(x.Len); ok && k == 0 {
+			return nil
+		}
+	case *ssa.Slice:
+		if x.High != nil && x.Low == nil {
+			if k, ok := constInt(x.High); ok {
+				if k == 0 {
+					return nil
+				}
+				// cut back to a constant-length prefix
+				isPrefix := func(p ssa.Value) bool {
+					c, ok := p.(*ssa.Const)
+					return ok && c.Value != nil && c.Value.Kind() == constant.String && int64(len(constant.StringVal(c.Value))) == k
+				}
+				if ph, isPhi := x.X.(*ssa.Phi); isPhi && !on[ph] {
+					// a buffer carried round a loop: every way of reaching the phi must leave the same k-byte prefix in place
+					on[ph] = true
+					var pref ssa.Value
+					okAll := true
+					for _, e := range ph.Edges {
+						p := catValuesD(e, on, d+1)
+						switch {
+						case len(p) >= 1 && isPrefix(p[0]):
+							if pref == nil {
+								pref = p[0]
+							} else if !sameConstOrValue(pref, p[0]) {
+								okAll = false
+							}
+						case len(p) >= 1 && p[0] == ssa.Value(ph):
+						case len(p) >= 1:
+							if sl, ok := p[0].(*ssa.Slice); ok && sl.X == ssa.Value(ph) && sl.Low == nil && sl.High != nil {
+								if k2, ok := constInt(sl.High); ok && k2 >= k {
+									break
+								}
+							}
+							okAll = false
+						default:
+							okAll = false
+						}
+					}
+					delete(on, ph)
+					if okAll && pref != nil {
+						return []ssa.Value{pref}
+					}
+					return []ssa.Value{v}
+				}
+				parts := catValuesD(x.X, on, d+1)
+				if len(parts) >= 1 && isPrefix(parts[0]) {
+					return parts[:1]
+				}
+			}
+		}
+	case *ssa.Call:
+		if b, ok := x.Call.Value.(*ssa.Builtin); ok && b.Name() == "append" && len(x.Call.Args) == 2 {
+			return append(append([]ssa.Value{}, catValuesD(x.Call.Args[0], on, d+1)...), x.Call.Args[1])
+		}
+	case *ssa.Phi:
+		if on[v] {
+			return []ssa.Value{v}
+		}
+		on[v] = true
+		defer delete(on, v)
+		// all alternatives must agree on their first part (the kept prefix); the shortest common prefix is returned
+		var common []ssa.Value
+		for i, e := range x.Edges {
+			p := catValuesD(e, on, d+1)
+			if i == 0 {
+				common = p
+				continue
+			}
+			n := 0
+			for n < len(common) && n < len(p) && sameConstOrValue(common[n], p[n]) {
+				n++
+			}
+			common = common[:n]
+		}
+		return common
+	}
+	return []ssa.Value{v}
+}
+
+// wholeOf: v is x[:] — returns x (the array/slice value or its address).
+func wholeOf(v ssa.Value) (ssa.Value, bool) {
+	v = stripConv(v)
+	if sl, ok := v.(*ssa.Slice); ok && sl.Low == nil && sl.High == nil {
+		return sl.X, true
+	}
+	return v, false
+}
+
+func sameConstOrValue(a, b ssa.Value) bool {
+	if a == b {
+		return true
+	}
+	ca, ok1 := a.(*ssa.Const)
+	cb, ok2 := b.(*ssa.Const)
+	if !ok1 || !ok2 || ca.Value == nil || cb.Value == nil {
+		return ok1 && ok2 && ca.Value == nil && cb.Value == nil
+	}
+	return ca.Value.Kind() == cb.Value.Kind() && constant.Compare(ca.Value, token.EQL, cb.Value)
+}
+
+// constFeasible blocks the successor edge that a constant branch condition can never take.
+func constFeasible(e edge) bool {
+	ifi, ok := e.from.Instrs[len(e.from.Instrs)-1].(*ssa.If)
+	if !ok {
+		return false
+	}
+	k, ok := ifi.Cond.(*ssa.Const)
+	if !ok || k.Value == nil || k.Value.Kind() != constant.Bool {
+		return false
+	}
+	taken := 1
+	if constant.BoolVal(k.Value) {
+		taken = 0
+	}
+	return e.succ != taken
+}
+
+// mustPassAfter: every path from the given edges to a return passes an
+// instruction satisfying must (branches on constant conditions are resolved).
+func mustPassAfter(edges []edge, must func(ssa.Instruction) bool) bool {
+	if len(edges) == 0 {
+		return false
+	}
+	_, reach := findPath(pathQuery{startEdges: edges, target: func(in ssa.Instruction) bool { _, ok := in.(*ssa.Return); return ok }, blocker: must, edgeBlock: constFeasible})
+	return !reach
 }
